@@ -216,7 +216,7 @@ theorem inplace_ok (cfg : Cfg) {w w' : World α} {c n' : Nat} (hv : VecOK cfg w 
       have hlt := hv.inl_lt
       refine ⟨by rw [hc.len _ (Or.inr (Or.inl (by omega)))]; exact h1, fun i hi => ?_⟩
       exact isRaw_of_eq (hrest _ i (Ne.symm hne) (Or.inr hlt)) (h2 i hi)
-  · refine ⟨?_, by rw [hhc], by rw [hhc], ?_, fun b _ => by rw [hc.owner], by rw [hc.next]; exact Nat.le_refl _⟩
+  · refine ⟨?_, by rw [hhc], by rw [hhc], ?_, fun b _ => by rw [hc.owner], by rw [hc.next]; exact Nat.le_refl _, Or.inl (by rw [hhc])⟩
     · intro d hd; rw [hh, upd_other _ _ _ _ hd]
     · intro b h1 _ _ h4
       exact mem_eq_of_slots (hc.len b (by rcases h4 with h | h; exact Or.inl h; exact Or.inr (Or.inl (by omega))))
@@ -340,7 +340,7 @@ theorem realloc_ok (cfg : Cfg) {w w' : World α} {c ncap n' : Nat} (hv : VecOK c
       rw [hother b hb1 (by omega)]
       exact hl.tmpfresh b h1 h2
   · -- Frame
-    refine ⟨?_, by rw [hhc], by rw [hhc], ?_, ?_, by rw [hnext]; omega⟩
+    refine ⟨?_, by rw [hhc], by rw [hhc], ?_, ?_, by rw [hnext]; omega, Or.inr (Or.inr (by rw [hhc]; exact Nat.le_refl _))⟩
     · intro d hd; rw [hh, upd_other _ _ _ _ hd]
     · intro b h1 _ h3 _
       exact hother b h1 (by omega)
